@@ -7,6 +7,9 @@ pub mod edit;
 pub mod rel;
 pub mod relsat;
 pub mod reledit;
+pub mod lossy;
+pub mod pgp;
+pub mod copyright;
 
 #[derive(Serialize, Deserialize, Default, Debug, Clone)]
 pub struct Viol {
@@ -60,6 +63,9 @@ pub fn run_case(stage: &str, case: &Value, seed: u64) -> Outcome {
         "rel_wrap" => rel::run_wrap(case, seed),
         "rel_sat" => relsat::run_sat(case, seed),
         "rel_edit" => reledit::run_edge(case, seed),
+        "lossy_para" => lossy::run_edge(case, seed),
+        "pgp" => pgp::run(case, seed),
+        "copyright" => copyright::run(case, seed),
         "rel_lossy_rt" => relsat::run_lossy_rt(case, seed),
         _ => panic!("unknown stage {}", stage),
     }
